@@ -2861,7 +2861,12 @@ def transform_compressible(items, constants, labels):
         # check if any set of criteria is all true for this item
         compressed = None
         for name, preds in criteria.items():
-            if all(pred(item, position, env) for pred in preds):
+            try:
+                matched = all(pred(item, position, env) for pred in preds)
+            except ValueError as e:
+                # e.g. an unknown register name
+                raise AssemblerError(str(e), item.line)
+            if matched:
                 compressed = name
                 break
 
